@@ -1,4 +1,5 @@
 import ScenicModel.Lemmas.SamplerDraws
+import ScenicModel.Props.C01Options
 import ScenicModel.Gen.SamplerCfg
 
 /-!
@@ -24,7 +25,9 @@ Reading guide (all statements are for every program, every set of roots, every p
   event exactly the probability of the declarative semantics `specGenerate` (`Model/SamplerSpec.lean`): independent
   draws of the reachable nodes, conditioned on all enforced requirements, geometric number of iterations, mixture over
   the independently enforced soft requirements;
-* `weighted_spec`, `uniform_star_spec` — the weighted choice and the uniform choice over a star-unpacked list.
+* `weighted_spec`, `uniform_star_spec` — the weighted choice and the uniform choice over a star-unpacked list;
+* `Props/C01Options.lean`: `options_build_spec`, `options_build_errors`, `options_kept_proper`,
+  `options_dropped_not_dependency`, `options_selector_law`, `options_clone_same` — what `Options({...})` constructs.
 -/
 namespace Scenic.C01
 open Scenic.Sampler Scenic.Gen Scenic.Sampler.Dist
